@@ -30,8 +30,9 @@ def main(argv):
                                            'searched_evaluations': 0})
             tier = os.environ.get('VERIF_TIER', mode) if mode in ('quick', 'thorough') else 'quick'
             core.write_evidence(pid, {'property_id': pid, 'tier': tier if tier in ('quick', 'thorough') else 'quick',
-                                      'seed': int(os.environ.get('VERIF_SEED', '0')), 'level': 'proof',
-                                      'coverage': {'obligations': 1, 'discharged': 0, 'checker_cmd': 'import of the harness module', 'trusted_base': [],
+                                      'seed': int(os.environ.get('VERIF_SEED', '0')), 'level': 'other',
+                                      'coverage': {'explanation': 'nothing could be run: ' + what,
+                                                   'obligations': 1, 'discharged': 0, 'checker_cmd': 'import of the harness module', 'trusted_base': [],
                                                    'theorems': [], 'evaluations': 0, 'distinct_nontrivial': 0, 'rule': 'nothing could be run', 'samples': [what],
                                                    'broken_obligation': what},
                                       'wall_s': 0.0, 'violations': 1})
